@@ -462,6 +462,53 @@ def check_maxrec(ctx, prog):
         ctx.fail("R4.nr.maxrec", "req_commit", "fold", "the new record count is not the MAX over the lead requests' max_rec", fn=fn, line=fn.line)
 
 
+def check_newrecs_guard(ctx, prog):
+    """the blocking put paths derive the new record count from the request's geometry (start/count/stride, the filetype's
+    upper bound).  That may happen only for a request that has transferred data: a request rejected earlier or of zero
+    length has been turned into `nelems == 0` and must leave the count alone.  Every assignment of a geometry expression
+    to a local named *numrecs* is dominated by the true side of a test `nelems > 0` (sibling agreement: put_varm has it)."""
+    n = 0
+    for fn in prog.all_functions():
+        for b, i, e in fn.elements():
+            cands = []
+            if e.get("k") == "asg" and e.get("op") == "=":
+                cands.append((e["a"], e["b"], e))
+            if e.get("k") == "decl":
+                for v in e.get("vars", []):
+                    if v.get("init") is not None:
+                        cands.append(({"k": "ref", "n": v["n"], "id": v.get("id"), "dk": "local"}, v["init"], e))
+            for lhs, rhs, el in cands:
+                l = strip(lhs)
+                if not (isinstance(l, dict) and l.get("k") == "ref" and l.get("n") == "new_numrecs"):
+                    continue
+                rt = canon(rhs)
+                if "numrecs" in rt or const_value(rhs) is not None:
+                    continue            # starts from the current count
+                n += 1
+                ctx.functions_analysed.add((fn.unit.name, fn.name))
+                site = "new_numrecs=%s" % rt[:30]
+                inst = "%s:%s" % (fn.name, site)
+                ok = False
+                doms = cfg.dominators(fn).get(b.id, set())
+                for d in doms:
+                    blk = fn.blocks[d]
+                    c = blk.cond
+                    if c is None or len(blk.succs) != 2 or d == b.id:
+                        continue
+                    cc = strip_pre(c)
+                    if isinstance(cc, dict) and cc.get("k") == "bin" and cc.get("op") == ">" and canon(cc["a"]) == "nelems" and const_value(cc["b"]) == 0:
+                        t = blk.succs[0]
+                        if t is not None and (t == b.id or t in doms):
+                            ok = True
+                if ok:
+                    ctx.ok("R4.nr.guard", inst, "computed only under nelems > 0")
+                else:
+                    ctx.fail("R4.nr.guard", fn.name, site, "the new record count is taken from the request's geometry (`%s`) without the test "
+                             "`nelems > 0`: a rejected or zero-length request, which writes nothing, still raises the record count"
+                             % rt[:50], fn=fn, line=el.get("l", 0), inst=inst)
+    ctx.require(n >= 3, "R4.nr.guard: only %d geometry-derived record counts found" % n)
+
+
 def check_snapshot(ctx, prog):
     """ncmpio_redef: the header snapshot (ncp->old = dup_NC) that enddef later compares and fills against is taken after
     the record count has been synchronised (leaving independent mode), never before"""
@@ -503,5 +550,7 @@ def run(ctx):
     check_points(ctx, prog)
     check_snapshot(ctx, prog)
     check_maxrec(ctx, prog)
+    ctx.rule("R4.nr.guard", "a record count derived from a request's geometry is computed only for a request that transferred data (nelems > 0)")
+    check_newrecs_guard(ctx, prog)
     n = r5.run_r5(ctx, prog)
     ctx.min_instances("R5.queue", 30)
